@@ -167,7 +167,7 @@ rows_harness!(c12_frozen_7, FROZEN, N_FROZEN, 7, 8, true);
 /// routes, a strict prefix finds nothing. (2) one byte of the name replaced by an arbitrary ASCII byte:
 /// the result is a suite carrying exactly the queried name, and it is this suite iff the byte is unchanged.
 macro_rules! name_harness {
-    ($name:ident, $name_sym:ident, $pick:expr) => {
+    ($name:ident, $name_neg:ident, $name_sym:ident, $pick:expr) => {
         #[kani::proof]
         #[kani::unwind(356)]
         fn $name() {
@@ -177,20 +177,26 @@ macro_rules! name_harness {
             vassert!(matches!(found, Some(c) if c.id.0 == r.id), "C12.from_name.registry_name_finds_its_suite");
             let found2 = <&'static TlsCipherSuite>::try_from(r.name).ok();
             vassert!(same(found, found2), "C12.from_name.try_from_str_agrees");
+            vcover!(true, "C12.cover.from_name_concrete");
+        }
+
+        /// negative lookups (concrete): a strict prefix and the same name with the case of one letter flipped
+        #[kani::proof]
+        #[kani::unwind(356)]
+        fn $name_neg() {
+            let idx = (($pick as u64 + SEED * 7) % (N_ROWS as u64)) as usize;
+            let r = &ROWS[idx];
             let n = r.name.len();
             let f = TlsCipherSuite::from_name(&r.name[..n - 1]);
             vassert!(f.is_none() || f.map(|c| c.name.len()) == Some(n - 1), "C12.from_name.strict_prefix_does_not_find_this_suite");
-            // the same name with the case of one letter flipped is a different string
             let mut lc = [0u8; 64];
             lc[..n].copy_from_slice(r.name.as_bytes());
             lc[0] ^= 0x20; // 'T' -> 't'
             if let Ok(sl) = core::str::from_utf8(&lc[..n]) {
                 let f = TlsCipherSuite::from_name(sl);
                 vassert!(f.is_none(), "C12.from_name.other_string_does_not_find_this_suite");
-                let f2 = <&'static TlsCipherSuite>::try_from(sl).ok();
-                vassert!(f2.is_none(), "C12.from_name.try_from_str_agrees");
             }
-            vcover!(true, "C12.cover.from_name_concrete");
+            vcover!(true, "C12.cover.from_name_negative");
         }
 
         #[kani::proof]
@@ -221,5 +227,5 @@ macro_rules! name_harness {
         }
     };
 }
-name_harness!(c12_from_name_a, c12_from_name_sym_a, 17);
-name_harness!(c12_from_name_b, c12_from_name_sym_b, 203);
+name_harness!(c12_from_name_a, c12_from_name_neg_a, c12_from_name_sym_a, 17);
+name_harness!(c12_from_name_b, c12_from_name_neg_b, c12_from_name_sym_b, 203);
